@@ -11,7 +11,11 @@ use futures::io::{AsyncReadExt, AsyncWriteExt};
 #[cfg(feature = "tokio")]
 use tokio::io::{AsyncReadExt, AsyncWriteExt};
 
-const OP_TIMEOUT: Duration = Duration::from_secs(30);
+fn op_timeout() -> Duration {
+    // under the system-call simulator a call can be parked by the scheduler for as long as the simulator likes:
+    // its own watchdog (no tracer-visible progress) is the hang detector there
+    Duration::from_secs(std::env::var("CV_OP_TIMEOUT_S").ok().and_then(|s| s.parse().ok()).unwrap_or(30))
+}
 
 #[cfg(feature = "tokio")]
 fn rt() -> &'static tokio::runtime::Runtime {
@@ -30,7 +34,7 @@ fn rt() -> &'static tokio::runtime::Runtime {
 #[cfg(feature = "astd")]
 fn run<F: std::future::Future<Output = Value>>(f: F) -> Value {
     async_std::task::block_on(async {
-        match async_std::future::timeout(OP_TIMEOUT, f).await {
+        match async_std::future::timeout(op_timeout(), f).await {
             Ok(v) => v,
             Err(_) => json!({"r":"hang","msg":"async op did not finish within the watchdog"}),
         }
@@ -40,7 +44,7 @@ fn run<F: std::future::Future<Output = Value>>(f: F) -> Value {
 #[cfg(feature = "tokio")]
 fn run<F: std::future::Future<Output = Value>>(f: F) -> Value {
     rt().block_on(async {
-        match tokio::time::timeout(OP_TIMEOUT, f).await {
+        match tokio::time::timeout(op_timeout(), f).await {
             Ok(v) => v,
             Err(_) => json!({"r":"hang","msg":"async op did not finish within the watchdog"}),
         }
